@@ -27,13 +27,13 @@ var libPkgs = []string{"", "rules", "filterlist", "filterutil", "lookup", "proxy
 
 // Prog is the loaded, resolved program.
 type Prog struct {
-	Repo  string
-	Fset  *token.FileSet
-	Pkgs  map[string]*packages.Package // by import path
-	SSA   *ssa.Program
-	SPkg  map[string]*ssa.Package // by import path
-	cg    *callgraph.Graph
-	nPkgs int
+	Repo   string
+	Fset   *token.FileSet
+	Pkgs   map[string]*packages.Package // by import path
+	SSA    *ssa.Program
+	SPkg   map[string]*ssa.Package // by import path
+	cg     *callgraph.Graph
+	nPkgs  int
 	GOARCH string
 	GOOS   string
 }
